@@ -11,7 +11,8 @@ void vp_done(u32 tid) { done[tid] = 1; }
 /* cut: get_address_waiter -> the one slot (pure); timed_spin_wait_until of waitable_atomic::wait -> "time is up" (W is past its spinning phase: the word
  * was true when it last polled, which holds in the pre-state); of concurrent_monitor_mutex::lock -> one poll */
 struct S_class_tbb__detail__r1__address_waiter* _ZN3tbb6detail2r1L18get_address_waiterEPv(u8* addr) { return &SLOT; }
-u8 _ZN3tbb6detail2d021timed_spin_wait_untilIZNS0_2d115waitable_atomicIbE4waitEbmSt12memory_orderEUlvE_EEbT_(struct HS_WAIT_CLOSURE* closure) { return 0; }
+#include "closure_stub.h"
+VP_CLOSURE_STUB(_ZN3tbb6detail2d021timed_spin_wait_untilIZNS0_2d115waitable_atomicIbE4waitEbmSt12memory_orderEUlvE_EEbT_) { return 0; }
 /* cut: concurrent_monitor_mutex::lock / unlock (the wait-set lock; its own sleeping protocol is monitor_*'s subject) = a plain lock whose acquire and
  * release are what they are on x86: locked exchanges, i.e. FULL FENCES that drain the caller's store buffer (modelled by the explicit flush). */
 int slot_locked;
